@@ -3080,15 +3080,18 @@ where
         let mut iter = iter.into_iter();
 
         if let Some((key, value)) = iter.next() {
-            // safety: we own `map`, so it's not concurrently accessed by
-            // anyone else at this point.
-            let guard = unsafe { Guard::unprotected() };
-
             let (lower, _) = iter.size_hint();
             let map = HashMap::with_capacity_and_hasher(lower.saturating_add(1), S::default());
 
-            map.put(key, value, false, &guard);
-            map.put_all(iter, &guard);
+            {
+                // NOTE: this must be a real guard even though nobody else can access `map` yet:
+                // with an unprotected guard everything `put` retires is freed on the spot, but
+                // `transfer` and `treeify_bin` still use the nodes they have just retired
+                // (they unlock the old head / follow its `next` pointer afterwards).
+                let guard = map.guard();
+                map.put(key, value, false, &guard);
+                map.put_all(iter, &guard);
+            }
             map
         } else {
             Self::default()
